@@ -1028,6 +1028,7 @@ Event make_call(Gen& g, int pi, int mi, const std::vector<int>& tuple) {
 Plan gen_C02(std::uint64_t seed, int tier) {
     Rng r(seed ^ 0xC02);
     BasicOpts o;
+    o.max_alias = r.chance(0.15) ? 2 : 1;
     // sparse or clashing definitions: many erroring tuples
     o.min_defs = 0;
     o.max_defs = r.chance(0.5) ? 2 : 6;
@@ -1580,6 +1581,7 @@ Plan gen_C05(std::uint64_t seed, int tier) {
 Plan gen_C03(std::uint64_t seed, int tier) {
     Rng r(seed ^ 0xC03);
     BasicOpts o;
+    o.max_alias = r.chance(0.15) ? 2 : 1;
     o.p_gadget = 0.15;
     o.min_defs = 2;
     o.max_defs = 12;
@@ -1597,6 +1599,7 @@ Plan gen_C03(std::uint64_t seed, int tier) {
 Plan gen_C04(std::uint64_t seed, int tier) {
     Rng r(seed ^ 0xC04);
     BasicOpts o;
+    o.max_alias = r.chance(0.15) ? 2 : 1;
     static const int fams[] = {F_DAG, F_DAG, F_DIAMONDS, F_LADDER, F_BOOLEAN,
                                F_WIDE, F_TREE, F_JOIN, F_JOIN};
     o.family = fams[r.below(9)];
@@ -1622,6 +1625,7 @@ Plan gen_C04(std::uint64_t seed, int tier) {
 Plan gen_C17(std::uint64_t seed, int tier) {
     Rng r(seed ^ 0xC17);
     BasicOpts o;
+    o.max_alias = r.chance(0.15) ? 2 : 1;
     o.p_gadget = 0.1;
     o.p_abstract = r.chance(0.5) ? 0.35 : 0.2;
     o.max_defs = 7;
@@ -1632,6 +1636,7 @@ Plan gen_C17(std::uint64_t seed, int tier) {
 Plan gen_C06(std::uint64_t seed, int tier) {
     Rng r(seed ^ 0xC06);
     BasicOpts o;
+    o.max_alias = r.chance(0.15) ? 2 : 1;
     o.p_gadget = 0.25;
     o.min_defs = 2;
     o.max_defs = 10;
@@ -1699,6 +1704,7 @@ Plan gen_C08(std::uint64_t seed, int tier) {
     static const int styles[] = {ST_DIRECT, ST_DIRECT_SELF, ST_MIXED, ST_SPLIT,
                                  -1};
     o.style = styles[r.below(5)];
+    o.max_alias = r.chance(0.3) ? 3 : 1; // several ids per class, also in base lists
     o.min_cls = 3;
     o.max_cls = tier ? 18 : 11;
     o.min_meth = 1;
